@@ -25,7 +25,13 @@ Per case (seeded schema x generated valid instance x converter class x converter
     names written with any in-scope prefix).  For these the mapper is no longer one function per document: the
     name mapping of every call is recorded at call time, filed under the lexical scope of the call, must be ONE
     mapping per scope (`scope_tables`), and the document goes through the scoped recursion
-    `decTreeS`/`encTreeS` of the model (JsonML, DataElement).
+    `decTreeS`/`encTreeS` of the model (JsonML, DataElement);
+  * repeated groups: nested groups that occur 3..6 times, with a single-occurrence head and optional followers,
+    often instantiated without the optional members (histogram keys doc:group-occurrences>=3…): runs of same-named
+    siblings that come from occurrences of the GROUP, which the encoders of the collapsing conventions must hand
+    back to the model one occurrence at a time (`iter_collapsed_content` buffers and re-admits them).  Same-named
+    siblings must keep their relative order: checked on the round trip (finding C05-F9 is matched only when the
+    order per name is intact) and directly on `iter_collapsed_content` for the content of in-scope documents.
 """
 from __future__ import annotations
 
@@ -77,6 +83,9 @@ ASSUMPTIONS = ['round trip is evaluated for valid documents only (generated inst
                'required when a member of a group of same-named siblings re-declares a prefix of / for its own '
                'namespace (the members become two keys, as for non-contiguous names); validity of the re-encoded '
                'document is still required',
+               'for the conventions that write attributes without a prefix (GData; default with attr_prefix="") the '
+               'equality clauses are not required when an element has an attribute and a child element with the same '
+               'local name (one dictionary key for both: theorem default_roundtrip_counterexample_key_collision)',
                'for a document with namespace declarations below the root "decodes to the same data again" is read '
                'modulo the place of the declarations: the data of the second decode is compared with the data of the '
                'same document written with the root declarations only (the serialiser of the harness writes every '
@@ -525,6 +534,38 @@ def drop_cdata(c):
     return c
 
 
+def _is_child(x) -> bool:
+    return isinstance(x, dict) and 'l' in x and bool(x['l']) and isinstance(x['l'][0], dict) and 'a' in x['l'][0] \
+        and x['l'][0]['a'][0] == 's'
+
+
+def per_name_equal(a, b) -> bool:
+    """two JsonML canonical trees are equal up to the relative order of children with DIFFERENT names: for every
+    element and every child name the sequence of children with that name (typed values, attributes, subtrees) is
+    the same, in the same order.  This is what finding C05-F9 leaves intact (a buffered name is emitted later,
+    first in first out); same-named siblings that change places are another defect."""
+    if _is_child(a) and _is_child(b):
+        xa, xb = a['l'], b['l']
+        if not L.values_equal(xa[0], xb[0]):
+            return False
+        ka = [x for x in xa[1:] if _is_child(x)]
+        kb = [x for x in xb[1:] if _is_child(x)]
+        oa = [x for x in xa[1:] if not _is_child(x)]
+        ob = [x for x in xb[1:] if not _is_child(x)]
+        if len(oa) != len(ob) or not all(L.values_equal(x, y) for x, y in zip(oa, ob)):
+            return False
+        ga: dict = {}
+        gb: dict = {}
+        for x in ka:
+            ga.setdefault(x['l'][0]['a'][1], []).append(x)
+        for x in kb:
+            gb.setdefault(x['l'][0]['a'][1], []).append(x)
+        if ga.keys() != gb.keys():
+            return False
+        return all(len(ga[k]) == len(gb[k]) and all(per_name_equal(x, y) for x, y in zip(ga[k], gb[k])) for k in ga)
+    return L.values_equal(a, b)
+
+
 def tostring(elem, u) -> str:
     """serialise the encoded tree with the namespace declarations (prefixes) of the original document"""
     return L.serialize(elem, u.ast_tns, u.pfx)
@@ -550,6 +591,10 @@ class Unit:
         self.ast_tns = m.group(1) if m else None
         self.inner_xmlns = 'xmlns' in xml[len(start):]
         self.keys_stable = L.keys_stable(xml) if self.inner_xmlns else True
+        # conventions that write attributes without a prefix (GData; default with attr_prefix=''): an attribute
+        # and a child element with the same local name are one dictionary key
+        self.attr_child_clash = any({k.split('}')[-1] for k in e.attrib} & {c.tag.split('}')[-1] for c in e}
+                                    for e in root.iter())
         self._base_data: dict = {}
 
     def hoisted(self) -> str:
@@ -587,6 +632,8 @@ def in_scope(u: Unit, cname: str, opts: dict) -> tuple[bool, str]:
         return False, 'non-contiguous'
     if not u.keys_stable:
         return False, 'same-named siblings under different prefixes'
+    if u.attr_child_clash and (cname == 'gdata' or (cname == 'default' and opts.get('attr_prefix') == '')):
+        return False, 'an attribute and a child share one key'
     if cname == 'default' and u.mixed_text and opts.get('cdata_prefix') is None:
         return False, 'cdata-dropped'
     return True, ''
@@ -650,7 +697,8 @@ def roundtrip(ctx: Ctx, u: Unit, cname: str, opts: dict, want_log=False) -> dict
     if et_shape(ET.fromstring(xml2)) != et_shape(ET.fromstring(u.xml)):
         res['outcome'] = 'structure-differs'
         report(ctx, 'element structure / attribute sets differ after decode+encode', case,
-               {'xml2': xml2, 'reordered_only': et_shape(ET.fromstring(xml2), True) == et_shape(ET.fromstring(u.xml), True)})
+               {'xml2': xml2, 'reordered_only': et_shape(ET.fromstring(xml2), True) == et_shape(ET.fromstring(u.xml), True),
+                'stable_per_name': per_name_equal(a, b)})
         return res
     if not L.values_equal(a, b):
         res['outcome'] = 'values-differ'
@@ -823,7 +871,7 @@ def known_match(case: dict, detail: Any) -> Optional[str]:
             return 'C05-F4'
         if cname in COLLAPSING and detail.get('diff') and 'cdata-in-run' in doc_shapes(case):
             return 'C05-F6'
-        if cname in COLLAPSING and detail.get('reordered_only'):
+        if cname in COLLAPSING and detail.get('reordered_only') and detail.get('stable_per_name'):
             return 'C05-F9'
         if cname == 'default' and detail.get('error') == 'validation' and 'list-elem' in doc_shapes(case) and \
                 'is not an instance of' in str(detail.get('msg', '')):
@@ -1298,6 +1346,18 @@ def order_variants(rng, content: list) -> list:
     return res
 
 
+def stable_order(content: list, out: list) -> bool:
+    """for every name, the values with that name come out in the order in which they went in"""
+    a: dict = {}
+    b: dict = {}
+    for k, v in content:
+        a.setdefault(str(k), []).append(json.dumps(v, sort_keys=True))
+    for x in out:
+        k, v = x['c'] if 'c' in x else x['n']
+        b.setdefault(str(k), []).append(json.dumps(v, sort_keys=True))
+    return a == b
+
+
 def order_cases(ctx: Ctx, drv: Optional[Driver], u: Unit, res: dict, limit: int) -> None:
     """iter_unordered_content / iter_collapsed_content: permutation property on the real code, and
     correspondence with the Lean model replayed against the recorded visitor"""
@@ -1341,6 +1401,13 @@ def order_cases(ctx: Ctx, drv: Optional[Driver], u: Unit, res: dict, limit: int)
                         if got != canon_in:
                             ctx.failure(f'{fn} dropped, duplicated or altered an entry', dict(case, xsd=u.xsd),
                                         {'output': out['ok']})
+                        elif vtag == 'as-encoded' and form == 'list' and u.contiguous and u.keys_stable and \
+                                not stable_order(case['content'], out['ok']):
+                            # the content that `element_encode` returned for the decoded data of a valid document:
+                            # children with the same name must keep their relative order (sibling order is part
+                            # of "element structure")
+                            ctx.failure(f'{fn} changed the relative order of same-named entries of a valid content',
+                                        dict(case, xsd=u.xsd), {'output': out['ok']})
                     else:
                         ctx.failure(f'{fn} raised', dict(case, xsd=u.xsd), out)
                     if drv is None:
@@ -1670,7 +1737,7 @@ def explore(ctx: Ctx, drv: Optional[Driver], n_schemas: int, n_inst: int, n_mut:
                 if drv is not None and 'data' in res:
                     compare_model(ctx, drv, u, cname, opts, res, pend)
                 if cname == 'badgerfish' and not opts and 'data' in res:
-                    order_cases(ctx, drv, u, res, 4)
+                    order_cases(ctx, drv, u, res, 6)
         if ctx.time_left() < 120:
             ctx.notes.append('time box reached; exploration cut short')
             break
@@ -1743,6 +1810,10 @@ def replay(ctx: Ctx, obj: dict) -> int:
         want = Counter(json.dumps([k, v], sort_keys=True) for k, v in case['content'])
         got = Counter(json.dumps(x['c'] if 'c' in x else x['n'], sort_keys=True) for x in out.get('ok', []))
         bad = 'ok' not in out or want != got
+        if not bad and case.get('variant') == 'as-encoded' and case.get('form') == 'list' and \
+                not stable_order(case['content'], out['ok']):
+            print('JUDGEMENT: FAILS ON THE REAL CODE: same-named entries of a valid content change their relative order')
+            return 1
         print('JUDGEMENT:', 'FAILS ON THE REAL CODE: not a permutation of the input' if bad else 'holds')
         return 1 if bad else 0
     if 'mutation' in case:
